@@ -109,7 +109,7 @@ var (
 var clauseKeywords = map[string]bool{
 	"property": true, "requires": true, "ensures": true, "assigns": true, "loop": true, "let": true,
 	"trusted": true, "pure": true, "fresh": true, "effects": true, "safety": true, "nosafety": true,
-	"implements": true, "rangefunc": true, "yields": true, "spec": true, "ghost": true, "axiom": true, "lemma": true, "reveal": true, "smt": true, "func": true, "extern": true, "iface": true, "const": true, "end": true,
+	"implements": true, "rangefunc": true, "yields": true, "spec": true, "ghost": true, "axiom": true, "lemma": true, "reveal": true, "smt": true, "func": true, "extern": true, "iface": true, "fnparam": true, "const": true, "end": true,
 }
 
 // parseContractFile reads every //@ line of a file.
@@ -219,7 +219,7 @@ func (sp *Specs) parseContractFile(path string, pkgPath string) error {
 			if ax.Lemma {
 				curLemma = ax
 			}
-		case "func", "extern", "iface":
+		case "func", "extern", "iface", "fnparam":
 			curLemma = nil
 			cur = &Contract{Kind: kw, Pkg: pkgPath, File: path, Line: ln.n}
 			name := rest
@@ -356,6 +356,11 @@ func canonKey(kind, name, pkgPath string) string {
 	}
 	if kind == "extern" {
 		return name
+	}
+	if kind == "fnparam" {
+		// fnparam FUNC.PARAM : contract assumed of a function-typed parameter
+		i := strings.LastIndex(name, ".")
+		return "fnparam:" + canonKey("func", name[:i], pkgPath) + name[i:]
 	}
 	// func: qualify with the package path of the contract file
 	if strings.HasPrefix(name, "(") {
